@@ -112,19 +112,31 @@ def kernel_tree(draw, d_in, batch, depth=2, names=None, allow_ad=True, psd_only=
     return r
 
 
+def _prior_kwargs(r):
+    if not r.get("priors"):
+        return {}
+    from pbt.priors_ref import build_prior
+
+    return {f"{pn}_prior": build_prior(pr) for pn, pr in r["priors"].items()}
+
+
+def _t(v):
+    return v if isinstance(v, torch.Tensor) else T(v)
+
+
 def build_kernel(r):
     """gpytorch kernel for recipe r; parameters go through the public setters"""
     name = r["k"]
     bs = torch.Size(r.get("batch", []))
     if name == "Scale":
-        k = K.ScaleKernel(build_kernel(r["base"]), batch_shape=bs)
+        k = K.ScaleKernel(build_kernel(r["base"]), batch_shape=bs, **_prior_kwargs(r))
         k.outputscale = T(r["p"]["outputscale"])
         return k
     if name == "Add":
         return K.AdditiveKernel(*[build_kernel(p) for p in r["parts"]])
     if name == "Prod":
         return K.ProductKernel(*[build_kernel(p) for p in r["parts"]])
-    kw = dict(batch_shape=bs)
+    kw = dict(batch_shape=bs, **_prior_kwargs(r))
     if r.get("ad") is not None:
         kw["active_dims"] = tuple(r["ad"])
     d = r["d"]
@@ -173,11 +185,17 @@ def _sqd(x1, x2, ls):
     return (_pair(x1, x2) / ls.unsqueeze(-2)).pow(2).sum(-1)
 
 
+def _safe_sqrt(sq):
+    """sqrt with derivative 0 (not nan) at exactly 0, so that the references are differentiable at coincident rows"""
+    mask = sq > 0
+    return torch.where(mask, sq, torch.ones_like(sq)).sqrt() * mask
+
+
 def ref_kernel(r, x1, x2):
     """dense (..., n1, n2) reference value of recipe r on x1 (..., n1, D), x2 (..., n2, D) (D = full input dim)"""
     name = r["k"]
     if name == "Scale":
-        os_ = T(r["p"]["outputscale"])
+        os_ = _t(r["p"]["outputscale"])
         return ref_kernel(r["base"], x1, x2) * os_[..., None, None]
     if name == "Add":
         out = None
@@ -194,13 +212,13 @@ def ref_kernel(r, x1, x2):
     if r.get("ad") is not None:
         x1 = x1[..., r["ad"]]
         x2 = x2[..., r["ad"]]
-    p = {k: T(v) for k, v in r["p"].items()}
+    p = {k: _t(v) for k, v in r["p"].items()}
     d = x1.shape[-1]
     if name == "RBF":
         return torch.exp(-0.5 * _sqd(x1, x2, p["lengthscale"]))
     if name.startswith("Matern"):
         nu = float(name[6:])
-        rr = _sqd(x1, x2, p["lengthscale"]).sqrt()
+        rr = _safe_sqrt(_sqd(x1, x2, p["lengthscale"]))
         e = torch.exp(-math.sqrt(2 * nu) * rr)
         if nu == 0.5:
             return e
@@ -212,7 +230,7 @@ def ref_kernel(r, x1, x2):
         return (1 + _sqd(x1, x2, p["lengthscale"]) / (2 * a)).pow(-a)
     if name.startswith("PP"):
         q = int(name[2:])
-        rr = _sqd(x1, x2, p["lengthscale"]).sqrt()
+        rr = _safe_sqrt(_sqd(x1, x2, p["lengthscale"]))
         j = d // 2 + q + 1
         base = torch.clamp(1 - rr, min=0.0)
         if q == 0:
@@ -234,7 +252,7 @@ def ref_kernel(r, x1, x2):
     if name.startswith("Poly"):
         return ((x1.unsqueeze(-2) * x2.unsqueeze(-3)).sum(-1) + p["offset"].unsqueeze(-1)).pow(int(name[4:]))
     if name == "Cosine":
-        rr = _pair(x1, x2).pow(2).sum(-1).sqrt()
+        rr = _safe_sqrt(_pair(x1, x2).pow(2).sum(-1))
         return torch.cos(math.pi * rr / p["period_length"])
     if name.startswith("SM"):
         tau = _pair(x1, x2).unsqueeze(-4)  # ..., 1, n1, n2, d
@@ -303,7 +321,7 @@ def build_mean(r):
     if r["m"] == "Zero":
         return M.ZeroMean(batch_shape=bs)
     if r["m"] == "Constant":
-        m = M.ConstantMean(batch_shape=bs)
+        m = M.ConstantMean(batch_shape=bs, **_prior_kwargs(r))
         m.constant = T(r["p"]["constant"])  # ConstantMean.constant has a setter
         return m
     m = M.LinearMean(r["d"], batch_shape=bs)
@@ -316,9 +334,9 @@ def ref_mean(r, x):
         bshape = torch.broadcast_shapes(x.shape[:-2], torch.Size(r.get("batch", [])))
         return torch.zeros(*bshape, x.shape[-2])
     if r["m"] == "Constant":
-        c = T(r["p"]["constant"])
+        c = _t(r["p"]["constant"])
         bshape = torch.broadcast_shapes(x.shape[:-2], c.shape)
         return c[..., None].expand(*bshape, x.shape[-2]).clone()
-    w = T(r["p"]["weights"])
-    b = T(r["p"]["bias"])
+    w = _t(r["p"]["weights"])
+    b = _t(r["p"]["bias"])
     return (x @ w).squeeze(-1) + b
